@@ -105,11 +105,30 @@ func facts(repo string) (string, error) {
 			if x, ok := cond.X.(*ast.Ident); !ok || x.Name != iv.Name {
 				return 0, "", nil, fmt.Errorf("loop condition is not on the index variable")
 			}
-			inc, ok := l.Post.(*ast.IncDecStmt)
-			if !ok || inc.Tok != token.INC {
+			// `i++`, or the equivalent spellings `i += 1` / `i = i + 1`
+			var postVar ast.Expr
+			switch ps := l.Post.(type) {
+			case *ast.IncDecStmt:
+				if ps.Tok == token.INC {
+					postVar = ps.X
+				}
+			case *ast.AssignStmt:
+				if len(ps.Lhs) == 1 && len(ps.Rhs) == 1 {
+					if one, err := intLit(ps.Rhs[0]); ps.Tok == token.ADD_ASSIGN && err == nil && one == 1 {
+						postVar = ps.Lhs[0]
+					} else if be, ok := ps.Rhs[0].(*ast.BinaryExpr); ok && ps.Tok == token.ASSIGN && be.Op == token.ADD {
+						l0, okL := ps.Lhs[0].(*ast.Ident)
+						x0, okX := be.X.(*ast.Ident)
+						if one, err := intLit(be.Y); okL && okX && x0.Name == l0.Name && err == nil && one == 1 {
+							postVar = ps.Lhs[0]
+						}
+					}
+				}
+			}
+			if postVar == nil {
 				return 0, "", nil, fmt.Errorf("loop post statement is not i++")
 			}
-			if x, ok := inc.X.(*ast.Ident); !ok || x.Name != iv.Name {
+			if x, ok := postVar.(*ast.Ident); !ok || x.Name != iv.Name {
 				return 0, "", nil, fmt.Errorf("loop post statement is not on the index variable")
 			}
 			n, err := lenOf(cond.Y)
